@@ -181,7 +181,7 @@ def diagName : DiagCls → String
   | .unterminatedString => "unterminatedString" | .unterminatedComment => "unterminatedComment"
   | .badOctal => "badOctal" | .badEscape => "badEscape" | .includeDepth => "includeDepth"
   | .includeNotFound => "includeNotFound" | .includeOpen => "includeOpen" | .includeArgs => "includeArgs"
-  | .noSubSection => "noSubSection" | .callback => "callback" | .other => "other"
+  | .noSubSection => "noSubSection" | .callback => "callback" | .noParseCb => "noParseCb" | .other => "other"
 
 def showDiag (d : Diag) : String := s!"G {hexOpt d.file} {d.line} {diagName d.cls}"
 
